@@ -13,8 +13,9 @@ echo "== patch:"; cat $src/patch.diff | grep -E '^[+-]' | grep -vE '^(\+\+\+|---
 git apply $src/patch.diff || { echo "PATCH DOES NOT APPLY"; exit 3; }
 go build ./... || { echo "DOES NOT BUILD"; exit 3; }
 pk=$(git diff --name-only | xargs -n1 dirname | sort -u | sed 's|^|./|' | tr '\n' ' ')
-echo "== existing tests with patch ($pk ./drpcstream/ ./drpcmanager/ ./drpcconn/):"
-go test -count=1 $pk ./drpcstream/ ./drpcmanager/ ./drpcconn/ 2>&1 | tail -6
+echo "== existing tests with patch (whole root module + backcompat, grpccompat, twirpcompat):"
+go test -vet=off -count=1 ./... 2>&1 | grep -v "no test files" | grep -v "^ok" | tail -6; echo "root suite exit=${PIPESTATUS[0]}"
+for m in internal/backcompat internal/grpccompat internal/twirpcompat; do (cd $m && go test -vet=off -count=1 ./... 2>&1 | grep -v "no test files" | grep -v "^ok" | tail -3; echo "$m exit=${PIPESTATUS[0]}"); done
 mkdir -p $cw/$seed && cp $src/*_test.go $cw/$seed/ 2>/dev/null
 echo "== demo files: $(ls $src)"
 # demo: external test package in its own directory (agent convention) or in-package test
